@@ -804,6 +804,8 @@ class ExprMixin:
                         raise PyRaise(r[1].exc, r[1].where)
         if not oks:
             raise PathEnd()
+        for r in oks:                       # ghost flags raised inside the body (RNG use, stream ownership) survive it
+            st.ghost.update(r[4].ghost)
         et = oks[0][1].t
         for r in oks:
             if r[1].t != et:
